@@ -1488,7 +1488,7 @@ class C04(Check):
     impl = "harness.c04:impl"
     uses_extract = True
     case_timeout = 5.0
-    budget = {"quick": 4000, "thorough": 40000}
+    budget = {"quick": 6000, "thorough": 120000}
     search_budget = {"quick": 3000, "thorough": 20000}
     rule = ("scripted scenarios: random declarations (constrained types over list/set/frozenset/tuple/dict/component origins, "
             "& | ^ ~ types, 1-4 field data classes incl. aliases/defaults/on_error/addition/discriminator, functions with "
